@@ -243,7 +243,9 @@ def judge(built, inputs, ref):
             "dev_writes": sim.dev_writes,
             "implicit": sorted(sim.implicit)}
     vios = []
-    if sim.present:
+    if fault is not None and fault[0] == "first-anomaly":
+        fault = None        # reported below from the recorded anomaly
+    elif sim.present:
         raise interp.Unsupported("arrays still present at routine exit")
     if fault is not None:
         if fault[0] == "step-cap":
@@ -310,8 +312,6 @@ def judge(built, inputs, ref):
     if diffs and not vios:
         vios.append({"class": "host-array-differs-from-host-only-run",
                      "observed": {"array": diffs[0][0], "diffs": diffs[:4]}})
-    elif diffs:
-        vios[0]["observed"]["host_diffs"] = diffs[:3]
     return vios, info
 
 
